@@ -7,6 +7,8 @@ from .common import Report, run_driver_parallel, seed, log, load_findings
 from .impl import run_cases, schema_to_wire
 
 RULES = [
+    ("Duplicate service", "serviceRpc"), ("Duplicate method", "serviceRpc"), ("must fit in 8 bits", "serviceRpc"),
+    ("No matching struct", "serviceRpc"),
     ("Struct has no signal", "emptyStruct"),
     ("Duplicate fields", "dupField"),
     ("Duplicated enumration name", "dupEnumName"),
@@ -91,6 +93,8 @@ def w_verify(case):
             importlib.import_module("fcp_dbc").Generator().register_checks(v)
         elif cs == "can_c":
             importlib.import_module("fcp_can_c").Generator().register_checks(v)
+        elif cs == "cpp":
+            importlib.import_module("fcp_cpp").Generator().register_checks(v)
         try:
             r = v.verify(fcp)
             if r.is_ok():
@@ -227,7 +231,11 @@ def rnd_tree(rng):
     for k in range(rng.choice([0, 0, 1, 2])):
         n = rng.choice(["s1", "s2"])
         svc.append(n)
-        sd["services"].append({"name": n, "id": k, "methods": []})
+        # methods with names, ids and payloads from small alphabets (the C++ plug-in's service check: ids in 0..255, unique
+        # names and ids, payloads that are declared structs)
+        ms = [{"name": rng.choice(["m", "n"]), "id": rng.choice([0, 1, 1, 255, 256, -1]),
+               "input": rng.choice(NAMES + ["Zz"]), "output": rng.choice(NAMES)} for _ in range(rng.choice([0, 1, 1, 2]))]
+        sd["services"].append({"name": n, "id": rng.choice([k, k, 0, 255, 256, -1]), "methods": ms})
     for k in range(rng.choice([0, 0, 1, 2])):
         fields = {}
         if rng.random() < 0.7:
@@ -330,8 +338,8 @@ def run(prop, tier, replay=None):
         tw = permute(rng, t)
         if not acyclic(tw):
             tw = t
-        cases.append({"sd": t, "sets": ["general", "dbc", "can_c"]})
-        cases.append({"sd": tw, "sets": ["general", "dbc", "can_c"]})
+        cases.append({"sd": t, "sets": ["general", "dbc", "can_c", "cpp"]})
+        cases.append({"sd": tw, "sets": ["general", "dbc", "can_c", "cpp"]})
     ires = run_cases("harness.verifier", "w_verify", cases, timeout_s=20)
     lcases = []
     idx = []
@@ -340,7 +348,7 @@ def run(prop, tier, replay=None):
             rep.hist("harness_problem", str(r)[:100])
             continue
         w = schema_to_wire(r["ok"]["schema"])
-        for cs in ("general", "dbc", "can_c"):
+        for cs in ("general", "dbc", "can_c", "cpp"):
             lcases.append({"op": "verify", "schema": w, "set": cs})
             idx.append((k, cs))
     mres = run_driver_parallel(lcases)
@@ -379,7 +387,7 @@ def run(prop, tier, replay=None):
                      "differs: %s vs model %s" % (rule_of(io["msgs"]), m.get("rule")))
     # permutation invariance, directly on the implementation
     for k in range(0, len(cases), 2):
-        for cs in ("general", "dbc", "can_c"):
+        for cs in ("general", "dbc", "can_c", "cpp"):
             a, b = verdicts.get((k, cs)), verdicts.get((k + 1, cs))
             if a is not None and b is not None and a != b:
                 rep.cov["disagreements_checked"] += 1
